@@ -199,7 +199,10 @@ def run_case(case, ctx):
             # exact fit of a random most-recently-used suffix, spelled as a 'K' / 'M' string or an int
             by_recency = sorted(inv.values(), key=lambda v: -v[1])
             fit = sum(v[0] for v in by_recency[:rng.randint(1, len(by_recency))])
-            bl = rng.choice([fit, repr(fit / 1024) + "K", repr(fit / 1024 ** 2) + "M"])
+            # ... or a string whose value is not a whole number of bytes (fit - 0.4 bytes: the suffix no longer fits; fit + 0.6: it does)
+            bl = rng.choice([fit, repr(fit / 1024) + "K", repr(fit / 1024 ** 2) + "M", repr((fit - 0.4) / 1024) + "K", repr((fit + 0.6) / 1024) + "K", repr((fit - 0.4) / 1024 ** 2) + "M"])
+            if isinstance(bl, str) and (float(bl[:-1]) * {"K": 1024, "M": 1024 ** 2}[bl[-1]]) % 1:
+                ctx.count("fractional_byte_limits_at_an_exact_fit_boundary")
         il = rng.choice([None, None, 0, 1, m - 1, m, m + 1])
         if il is not None and il < 0:
             il = None
